@@ -395,7 +395,8 @@ def only_row_changed(eng, st, lst):
     o = z3.Int("orc_o")
     pre_e, pre_n = ctx.pre_heap.get(e_, st.heap0.get(e_)), ctx.pre_heap.get(n_, st.heap0.get(n_))
     cur_e, cur_n = eng.harr(st, e_), eng.harr(st, n_)
-    return SV(KBool, qforall([o], z3.Implies(o != lst.term, z3.And(cur_e[o] == pre_e[o], cur_n[o] == pre_n[o])), patterns=[cur_e[o], cur_n[o]]))
+    return SV(KBool, qforall([o], z3.Implies(o != lst.term, z3.And(cur_e[o] == pre_e[o], cur_n[o] == pre_n[o])),
+                             patterns=[cur_e[o], cur_n[o], pre_e[o], pre_n[o]]))
 
 
 # --- C13: maximising f is minimising -f -- mirror lemmas over the direction-parametric contracts ------------------
@@ -497,3 +498,251 @@ R.lemma("best-own-mirror", """
 """, module="optuna.pruners._percentile", params={"t": "FrozenTrial", "u": "FrozenTrial"},
         requires=["len(t.intermediate_values) > 0", "mirrored_trials(t, u)"],
         props=["C13"], note="the best own intermediate value under maximisation is minus the best of the negated reports under minimisation")
+
+
+# --- successive halving: the rung loop ---------------------------------------------------------------------------------------
+R.schema("SuccessiveHalvingPruner", {"_min_resource": "int | None", "_reduction_factor": "int", "_min_early_stopping_rate": "int",
+                                     "_bootstrap_count": "int"})
+R.spec(SHA, "_completed_rung_key", inline=True)
+R.spec("optuna/trial/_frozen.py", "FrozenTrial.system_attrs", inline=True)
+
+
+def _rung_key(r):
+    V = val_sort()
+    return uf("str_format_1", z3.StringSort(), V, z3.StringSort())(z3.StringVal("completed_rung_{}"), V.vint(r))
+
+
+def _sattrs(eng, st, t):
+    return eng.get_field(st, t, "_system_attrs")
+
+
+@R.specfunc()
+def has_rung(eng, st, trial, r):
+    return SV(KBool, eng.dict_has(st, _sattrs(eng, st, trial), SV(KStr, _rung_key(r.term))))
+
+
+R.spec(SHA, "_get_current_rung", props=["C16"], types={"trial": "FrozenTrial"}, returns_kind="int",
+       cases=[case("ok", ensures=["result >= 0", "not has_rung(trial, result)",
+                                  "forall(lambda r: implies(0 <= r and r < result, has_rung(trial, r)))"])],
+       loops={0: loop(invariant=["rung >= 0", "forall(lambda r: implies(0 <= r and r < rung, has_rung(trial, r)))"], locals={"rung": "int"})},
+       modifies=[])
+
+R.spec(SHA, "_estimate_min_resource", props=["C16"], types={"trials": "list[FrozenTrial]"}, returns_kind="int | None",
+       locals={"n_steps": "list[int]"},
+       cases=[case("ok", ensures=["result is None or result >= 1", "old_lists_unchanged()"])], modifies=["L:*:list<int>", "G:is_tuple"])
+
+
+@R.specfunc()
+def competing_ok(eng, st, result, trials, value, rung_key):
+    """The list ends with the trial's own value; every earlier entry is the value some listed trial recorded under rung_key."""
+    n = eng.list_len(st, result)
+    i = z3.Int("co_i")
+    w = z3.Int("co_w")
+    t = eng.list_get(st, trials, w)
+    d = _sattrs(eng, st, t)
+    v = eng.dict_get(st, d, rung_key).term
+    e = eng.list_get(st, result, i).term
+    from pyvc import lib
+    return SV(KBool, z3.And(n >= 1, eng.list_get(st, result, n - 1).term == value.term,
+                            qforall([i], z3.Implies(z3.And(0 <= i, i < n - 1),
+                                                    z3.Exists([w], z3.And(0 <= w, w < eng.list_len(st, trials), eng.dict_has(st, d, rung_key),
+                                                                          e == lib.val_to_float_term(v)))), patterns=[e])))
+
+
+R.spec(SHA, "_get_competing_values", props=["C16"], types={"trials": "list[FrozenTrial]"}, returns_kind="list[float]",
+       requires=["rung_values_are_floats(trials, rung_key)"],
+       cases=[case("ok", ensures=["fresh(result)", "competing_ok(result, trials, value, rung_key)", "old_lists_unchanged()"])],
+       modifies=["L:*:list<float>", "L:*:list<val>", "G:is_tuple"])
+
+
+@R.specfunc()
+def rung_values_are_floats(eng, st, trials, rung_key):
+    """Record schema of the rung attributes (what prune itself writes): a non-NaN float."""
+    V = val_sort()
+    i = z3.Int("rv_i")
+    t = eng.list_get(st, trials, i)
+    d = _sattrs(eng, st, t)
+    v = eng.dict_get(st, d, rung_key).term
+    return SV(KBool, qforall([i], z3.Implies(z3.And(0 <= i, i < eng.list_len(st, trials), eng.dict_has(st, d, rung_key)),
+                                             z3.And(V.is_vflt(v), z3.Not(f_is_nan(V.f(v))))), patterns=[t.term]))
+
+
+R.spec("optuna/storages/_base.py", "BaseStorage.set_trial_system_attr", trusted=True, types={"value": "Any"},
+       cases=[case("raises", when="nondet()", raises="Exception"), case("ok")],
+       note="assumed: records the attribute (or raises); objects already handed out are not changed (C20)")
+
+
+@R.specfunc()
+def rung_schema(eng, st, trials):
+    """Record schema of `completed_rung_<k>` attributes (what prune itself writes, after its NaN test): non-NaN floats."""
+    V = val_sort()
+    i, r = z3.Int("rs_i"), z3.Int("rs_r")
+    t = eng.list_get(st, trials, i)
+    d = _sattrs(eng, st, t)
+    key = SV(KStr, _rung_key(r))
+    v = eng.dict_get(st, d, key).term
+    return SV(KBool, qforall([i, r], z3.Implies(z3.And(0 <= i, i < eng.list_len(st, trials), eng.dict_has(st, d, key)),
+                                                z3.And(V.is_vflt(v), z3.Not(f_is_nan(V.f(v))))), patterns=[eng.dict_has(st, d, key)]))
+
+
+_gt.cases[0].ensures.append("rung_schema(result)")
+
+
+@R.specfunc()
+def beats_every_rung_value(eng, st, value, direction):
+    """`value` (not NaN) is strictly better than every value any listed trial recorded at any rung."""
+    trials = st.ghost.get("get_trials_result")
+    if trials is None:
+        return SV(KBool, z3.Not(f_is_nan(value.term)))
+    from pyvc import lib
+    i, r = z3.Int("be_i"), z3.Int("be_r")
+    t = eng.list_get(st, trials, i)
+    d = _sattrs(eng, st, t)
+    key = SV(KStr, _rung_key(r))
+    v = lib.val_to_float_term(eng.dict_get(st, d, key).term)
+    better = z3.If(direction.term == 2, f_lt(v, value.term), f_lt(value.term, v))
+    return SV(KBool, z3.And(z3.Not(f_is_nan(value.term)),
+                            qforall([i, r], z3.Implies(z3.And(0 <= i, i < eng.list_len(st, trials), r >= 0, eng.dict_has(st, d, key)), better),
+                                    patterns=[eng.dict_has(st, d, key)])))
+
+
+@R.specfunc()
+def old_lists_unchanged(eng, st):
+    """Every list object allocated before the call keeps its length and contents."""
+    ctx = eng.spec_stack[-1]
+    conj = []
+    r = z3.Int("olu_r")
+    for name, arr in st.heap.items():
+        a0 = ctx.pre_heap.get(name)
+        if a0 is None or z3.eq(a0, arr) or not name.startswith("L:") or "@oldview" in name:      # (@oldview: ghost of old_list())
+            continue
+        conj.append(qforall([r], z3.Implies(z3.And(0 <= r, r < ctx.pre_nref), arr[r] == a0[r]), patterns=[arr[r], a0[r]]))
+    return SV(KBool, z3.And(conj) if conj else z3.BoolVal(True))
+
+
+def _exists(vs, body, pat):
+    """Exists with an explicit pattern when z3 accepts it (patterns must not contain ite/arith), else z3's own choice."""
+    try:
+        return z3.Exists(vs, body, patterns=[z3.simplify(pat)])
+    except z3.Z3Exception:
+        return z3.Exists(vs, body)
+
+
+@R.specfunc()
+def reached_a_rung(eng, st, self_sv, step):
+    """step >= min_resource * reduction_factor ** e for some exponent e >= min_early_stopping_rate: the trial has reached a
+    rung of its bracket (in particular step >= min_resource * reduction_factor ** min_early_stopping_rate)."""
+    mr = eng.get_field(st, self_sv, "_min_resource")
+    mrt = sort_of(mr.kind).v(mr.term) if isinstance(mr.kind, KOpt) else mr.term
+    rf = eng.get_field(st, self_sv, "_reduction_factor").term
+    rate = eng.get_field(st, self_sv, "_min_early_stopping_rate").term
+    e = z3.Int("rr_e")
+    p = uf("int_pow", I, I, I)(rf, e)
+    return SV(KBool, _exists([e], z3.And(e >= rate, step.term >= mrt * p), p))
+
+
+R.spec(SHA, "SuccessiveHalvingPruner.prune", props=["C16"], types={"study": "Study", "trial": "FrozenTrial"}, returns_kind="bool",
+       requires=["self._reduction_factor >= 2", "self._min_early_stopping_rate >= 0", "self._bootstrap_count >= 0",
+                 "self._min_resource is None or self._min_resource >= 1", "steps_nonneg(trial)", "len(study._directions) == 1"],
+       cases=[case("nothing-reported", when="len(trial.intermediate_values) == 0", returns="False"),
+              case("ok", any_outcome=True, ensures_return=[
+                  # never before a rung of the trial's bracket is reached
+                  "implies(result, reached_a_rung(self, last_step_of(trial)))",
+                  # without bootstrap, a (non-NaN) value that beats everything recorded at any rung is never pruned
+                  "implies(self._bootstrap_count == 0 and beats_every_rung_value(trial.intermediate_values[last_step_of(trial)], study._directions[0]), not result)",
+              ], ensures=["old_lists_unchanged()"])],
+       loops={0: loop(invariant=["rung >= 0", "self._min_resource is None or self._min_resource >= 1", "old_lists_unchanged()",
+                                 "trials is None or (fresh(trials) and rung_schema(trials) and trials is g_trials())"],
+                      locals={"rung": "int", "trials": "list[FrozenTrial] | None"},
+                      modifies=["F:SuccessiveHalvingPruner._min_resource", "L:*", "G:is_tuple"])},
+       locals={"trials": "list[FrozenTrial] | None"},
+       modifies=["F:SuccessiveHalvingPruner._min_resource", "L:*", "G:is_tuple"])
+
+
+@R.specfunc()
+def g_trials(eng, st):
+    r = st.ghost.get("get_trials_result")
+    return r if r is not None else SV(KList(KRef("FrozenTrial")), z3.IntVal(0))
+
+
+# --- hyperband: delegation to the successive-halving pruner of the trial's own bracket -----------------------------------------
+R.schema("HyperbandPruner", dict(R.schemas["HyperbandPruner"], _min_resource="int", _reduction_factor="int", _bootstrap_count="int"))
+
+
+@R.specfunc()
+def hb_initialised(eng, st, self_sv):
+    """State after a successful initialisation: one successive-halving pruner per bracket, bracket b starting at rung b
+    (min_early_stopping_rate == b), all with the Hyperband pruner's reduction factor and bootstrap count; budgets positive."""
+    pr = eng.get_field(st, self_sv, "_pruners")
+    nb = eng.get_field(st, self_sv, "_n_brackets")
+    nbt = sort_of(nb.kind).v(nb.term) if isinstance(nb.kind, KOpt) else nb.term
+    b = z3.Int("hi_b")
+    p = eng.list_get(st, pr, b)
+    g = lambda f: eng.get_field(st, p, f).term
+    mr = eng.get_field(st, p, "_min_resource")
+    mrt = sort_of(mr.kind).v(mr.term) if isinstance(mr.kind, KOpt) else mr.term
+    mr_some = sort_of(mr.kind).is_some(mr.term) if isinstance(mr.kind, KOpt) else z3.BoolVal(True)
+    budgets = eng.get_field(st, self_sv, "_trial_allocation_budgets")
+    return SV(KBool, z3.And(
+        eng.is_none(st, nb) == z3.BoolVal(False) if False else z3.Not(eng.is_none(st, nb)),
+        nbt == eng.list_len(st, pr), nbt >= 1, eng.list_len(st, budgets) == nbt,
+        eng.get_field(st, self_sv, "_total_trial_allocation_budget").term >= 1,
+        qforall([b], z3.Implies(z3.And(0 <= b, b < nbt), z3.And(
+            p.term > 0, g("_min_early_stopping_rate") == b, g("_reduction_factor") == eng.get_field(st, self_sv, "_reduction_factor").term,
+            g("_reduction_factor") >= 2, g("_bootstrap_count") == eng.get_field(st, self_sv, "_bootstrap_count").term, g("_bootstrap_count") >= 0,
+            z3.Or(z3.Not(mr_some), mrt >= 1))), patterns=[p.term])))
+
+
+R.spec(HB, "HyperbandPruner._try_initialization", trusted=True, types={"study": "Study"},
+       cases=[case("ok", ensures=["len(self._pruners) == 0 or (hb_initialised(self) and prefix_axioms(self) and "
+                                  "self._total_trial_allocation_budget == budget_prefix(self, len(self._trial_allocation_budgets)))",
+                                  "only_fresh_modified_except_self(self)"])],
+       modifies=["F:HyperbandPruner.*", "F:SuccessiveHalvingPruner.*", "L:*:list<ref:SuccessiveHalvingPruner>", "L:*:list<int>", "G:is_tuple"],
+       note="assumed: initialisation (log/ceil arithmetic over max_resource) either leaves the pruner uninitialised or builds one "
+            "SuccessiveHalvingPruner per bracket with min_early_stopping_rate = bracket index and positive budgets")
+
+
+@R.specfunc()
+def only_fresh_modified_except_self(eng, st, self_sv):
+    ctx = eng.spec_stack[-1]
+    conj = []
+    r = z3.Int("ofs_r")
+    for name, arr in st.heap.items():
+        a0 = ctx.pre_heap.get(name)
+        if a0 is None or z3.eq(a0, arr) or name.startswith("G:"):
+            continue
+        conj.append(qforall([r], z3.Implies(z3.And(0 <= r, r < ctx.pre_nref, r != self_sv.term), arr[r] == a0[r]), patterns=[arr[r], a0[r]]))
+    return SV(KBool, z3.And(conj) if conj else z3.BoolVal(True))
+
+
+R.spec(HB, "HyperbandPruner._create_bracket_study", trusted=True, types={"study": "Study"}, returns_kind="Study",
+       cases=[case("ok", ensures=["fresh(result)", "result._directions is study._directions", "result.study_name == study.study_name",
+                                  "result._storage is study._storage", "only_fresh_modified()"])],
+       modifies=["F:Study.*"],
+       note="assumed: the bracket study is a view of the same study (same name, storage, directions) whose get_trials is filtered")
+
+
+@R.specfunc()
+def own_bracket_reached(eng, st, self_sv, study, trial):
+    """The trial's step reached a rung of the successive-halving pruner of ITS OWN bracket (the bracket whose budget interval
+    contains crc32(name_number) mod total budget)."""
+    pr = eng.get_field(st, self_sv, "_pruners")
+    b = z3.Int("ob_b")
+    p = eng.list_get(st, pr, b)
+    h = R.specfuncs["bracket_hash"](eng, st, self_sv, study, trial).term
+    lo = R.specfuncs["budget_prefix"](eng, st, self_sv, SV(KInt, b)).term
+    hi = R.specfuncs["budget_prefix"](eng, st, self_sv, SV(KInt, b + 1)).term
+    step = R.specfuncs["last_step_of"](eng, st, trial)
+    reached = R.specfuncs["reached_a_rung"](eng, st, p, step).term
+    return SV(KBool, _exists([b], z3.And(0 <= b, b < eng.list_len(st, pr), lo <= h, h < hi, reached), p.term))
+
+
+R.spec(HB, "HyperbandPruner.prune", props=["C16"], types={"study": "Study", "trial": "FrozenTrial"}, returns_kind="bool",
+       requires=["len(self._pruners) == 0 or (hb_initialised(self) and prefix_axioms(self) and "
+                 "self._total_trial_allocation_budget == budget_prefix(self, len(self._trial_allocation_budgets)))",
+                 "steps_nonneg(trial)", "len(study._directions) == 1", "self._n_brackets is None or self._n_brackets == len(self._pruners) or len(self._pruners) == 0"],
+       cases=[case("ok", any_outcome=True, ensures_return=[
+           # a Hyperband prune decision is the decision of the successive-halving pruner of the trial's own bracket: in
+           # particular never before a rung of that bracket is reached
+           "implies(result, len(trial.intermediate_values) > 0 and own_bracket_reached(self, study, trial))"])],
+       modifies=["F:HyperbandPruner.*", "F:SuccessiveHalvingPruner.*", "F:Study.*", "L:*", "G:is_tuple"])
